@@ -8,5 +8,6 @@ package content
 // buffer is the chunk, no more and no less.
 //@ func (*bufWriter).Write
 //@   requires nn:   w != nil && w.w != nil
+//@   modifies bufWriter.buf, mem[uint8]
 //@   ensures  len:  len(w.buf) == len(p)
 //@   ensures  same: forall i int :: 0 <= i && i < len(p) ==> w.buf[i] == old(p[i])
